@@ -102,6 +102,11 @@ class C04:
         calls = [c for c in self.eff.provider_mutations(hr) if c.func.attr == "rename"]
         ok = bool(calls) and all(pat.match("self.providers[%s].rename(%s[%s].oid, translated_path)" % (synced, sync, synced), c) is not None for c in calls)
         rep.check("C04.R5", "handle_rename|by-id", hr, ok, "rename(sync[synced].oid, translated_path)", "the peer is not renamed by its stored id to the translated path")
+        res = {n.targets[0].id for n in ctx.own_nodes(hr) if isinstance(n, ast.Assign) and any(n.value is c for c in calls) and isinstance(n.targets[0], ast.Name)}
+        ups = [c for c in ctx.calls(hr, "update_entry")]
+        ok = bool(res) and bool(ups) and all(any(isinstance(x, ast.Name) and x.id in res for k in c.keywords if k.arg == "oid" for x in ast.walk(k.value)) for c in ups)
+        rep.check("C04.R5", "handle_rename|new-id-recorded", hr, ok, "the id returned by rename() is recorded for the renamed side",
+                  "the id returned by the provider's rename is dropped: with path-style ids the entry keeps the old id and a second rename of the same object duplicates it")
 
     def r6(self):
         rep, ctx = self.rep, self.ctx
@@ -134,5 +139,9 @@ def run(ctx: Ctx, rep: Report, tier: str):
     c = C04(ctx, rep)
     c.r1()
     c.r2_r3()
+    rep.rule("C04.R3b", "a delete stays deleted: when the provider has no information about a tombstoned (LIKELY_TRASHED) id it is confirmed TRASHED for "
+             "every provider style, nothing stores EXISTS on that arm (same queries as C14.W4)", expect_min=3)
+    from rules.C14 import w4
+    w4(ctx, rep, "C04.R3b")
     c.r4_r5()
     c.r6()
